@@ -56,7 +56,7 @@ def _evaluate(case):
     ops = case["ops"]
     method = case.get("method", "tasks")
     try:
-        q = O.build(tables.source(case["src"]), ops)
+        q = O.build(tables.source(case["src"]), ops, method=method)
     except CaseTimeout:
         raise
     except Exception as e:  # noqa: BLE001
